@@ -44,6 +44,7 @@ fn err_kind(e: &Error) -> String {
         Error::AliasReplayLimitExceeded { .. } => "replay_limit".into(),
         Error::InternalDepthUnderflow { .. } => "depth_underflow".into(),
         Error::MultipleDocuments { .. } => "multi_doc".into(),
+        Error::UnexpectedSequenceEnd { .. } | Error::UnexpectedMappingEnd { .. } => "unexpected_end".into(),
         other => format!("other:{}", crate::errs::kind(other)),
     }
 }
@@ -181,8 +182,6 @@ fn one_reader_case(sink: &mut Sink, o: &mut Oracle, st: &mut Stats, doc: &[u8], 
         if iw != its { o.fail("C10-copies-differ", &format!("read_with_options_validate vs read_with_options, {}", fault_tok(f)), doc, &iw.join(","), &its.join(",")); }
         sink.count("copies.checked");
     }
-    // framing contract of the parser items (hypothesis of `fault_surfaces_single`)
-    sink.case(&format!("iofault framed {it}"), "1");
 
     // ---- oracle (implementation only)
     let fault_seen = !fired.is_empty();
@@ -196,7 +195,8 @@ fn one_reader_case(sink: &mut Sink, o: &mut Oracle, st: &mut Stats, doc: &[u8], 
         sink.count("iter.swallowed");
         o.fail(id, &format!("read_with_options ended without an Err item although the error cell was set (kinds {fr}), {}", fault_tok(f)), doc, &iter_ans, "an Err item");
     }
-    // a reader that reports an error must make the call fail (the cell is not even set for kind UnexpectedEof)
+    // a reader that reports an error must make the call fail even if the cell was never set (regression guard for
+    // the fixed finding C10-reader-unexpected-eof-kind-treated-as-eof: kind UnexpectedEof used to be taken for EOF)
     if let Some(k) = reader_failed_kind {
         if rd.fail_calls > 0 && r.is_ok() && !fault_seen {
             o.fail("C10-reader-unexpected-eof-kind-treated-as-eof", &format!("from_reader returned Ok although the reader returned Err(kind {k}), {}", fault_tok(f)), doc, &single, "err");
@@ -423,7 +423,7 @@ fn generate(a: &Args) -> i32 {
         "measured_max_pull_beyond_cap": st.max_over_cap,
         "measured_max_pull_beyond_cap_case": st.max_over_cap_case,
         "allowance_bound_checked": allowance,
-        "rule": "reader side: hand corpus + generated tag-free/merge-free multi-document streams (no `%` lines) x EVERY fault position k in 0..=len (48 sampled positions for longer documents in quick tier) x {reader fails forever with kind Other, fails once (Other, ConnectionReset), clean EOF at k (includes EOF inside a code point), fails with kind UnexpectedEof forever/once} x chunkings {1, 3, whole} and x every cap in 0..=len+2 x chunkings {1, whole}; for each configuration the hook reader_items_with_cell gives the parser items and the pulls at which the error cell was set; compared with the Lean protocol model: result of from_reader_with_options::<IgnoredAny> (ok / error kind), the item list of read_with_options::<IgnoredAny> (ok / error kind per item), and the framing contract of the parser items. Oracle: cell set or cap breach or EOF inside a code point => Err (single) / an Err item (iterator); closure reader helper = from_reader; cap >= length changes nothing; bytes pulled <= cap + allowance (measured on a 150 KB input with caps 0..64 KiB); a reader error of any kind => Err. writer side: fault-free write calls recorded, then for every k the k-th write fails (kinds Other, BrokenPipe), plus random schedules of short writes / Interrupted / zero-length accepts; compared with the model: result kind and accepted bytes; oracle: accepted bytes are a prefix of the fault-free output, Err is the I/O error. Non-trivial = reader configurations with a fault or an active cap.",
+        "rule": "reader side: hand corpus + generated tag-free/merge-free multi-document streams (no `%` lines) x EVERY fault position k in 0..=len (48 sampled positions for longer documents in quick tier) x {reader fails forever with kind Other, fails once (Other, ConnectionReset), clean EOF at k (includes EOF inside a code point), fails with kind UnexpectedEof forever/once} x chunkings {1, 3, whole} and x every cap in 0..=len+2 x chunkings {1, whole}; for each configuration the hook reader_items_with_cell gives the parser items and the pulls at which the error cell was set; compared with the Lean protocol model: result of from_reader_with_options::<IgnoredAny> (ok / error kind), the item list of read_with_options::<IgnoredAny> (ok / error kind per item). Oracle: cell set or cap breach or EOF inside a code point => Err (single) / an Err item (iterator); closure reader helper = from_reader; cap >= length changes nothing; bytes pulled <= cap + allowance (measured on a 150 KB input with caps 0..64 KiB); a reader error of any kind => Err. writer side: fault-free write calls recorded, then for every k the k-th write fails (kinds Other, BrokenPipe), plus random schedules of short writes / Interrupted / zero-length accepts; compared with the model: result kind and accepted bytes; oracle: accepted bytes are a prefix of the fault-free output, Err is the I/O error. Non-trivial = reader configurations with a fault or an active cap.",
     }));
     0
 }
